@@ -30,7 +30,7 @@ void check_load_case(const char* opname, uint32_t n, unsigned off, const typenam
     typedef typename UBits<T>::type U;
     const unsigned W = V::width;
     std::array<U, V::width> got;
-    bool ok = false;
+    volatile bool ok = false;
     uint32_t cls = (n > 255 ? 255 : n) | (off << 8);
     VK_GUARDED(cls, ("n=" + std::to_string(n) + ",off=" + std::to_string(off)), { got = raw_lanes<V>(call(p, n)); ok = true; });
     c.cases++; c.cls_add(cls & 0xFFF);
@@ -51,7 +51,7 @@ void check_store_case(const char* opname, uint32_t n, unsigned off, Buf<V>& buf,
     typedef typename UBits<T>::type U;
     const unsigned W = V::width;
     buf.fill_sent();
-    bool ok = false;
+    volatile bool ok = false;
     uint32_t cls = (n > 255 ? 255 : n) | (off << 8);
     VK_GUARDED(cls, ("n=" + std::to_string(n) + ",off=" + std::to_string(off)), { call(p, v, n); ok = true; });
     c.cases++; c.cls_add(cls & 0xFFF);
@@ -170,7 +170,7 @@ void run(const char* type) {
         for (unsigned t = 0; t < trials * 50; ++t) {
             std::array<T, V::width> a; std::array<U, V::width> ub;
             for (unsigned i = 0; i < W; ++i) { ub[i] = gen_val<U>(r, t % 4, i + t); a[i] = frombits<T>(ub[i]); }
-            std::array<U, V::width> viaraw; std::array<T, V::width> back; bool ok = false;
+            std::array<U, V::width> viaraw; std::array<T, V::width> back; volatile bool ok = false;
             VK_GUARDED(0, "ctor(array)", { V v(a); viaraw = raw_lanes<V>(v); back = avel::to_array(v); ok = true; });
             c.cases++; c.cls_add(t % 4 + 1);
             if (c.cases <= 2) add_sample("to_array(V{arr}) arr[0]=" + hex(ub[0]));
@@ -209,7 +209,7 @@ void run_lane_access(const char* type) {
             std::array<U, V::width> lanes; for (unsigned i = 0; i < W; ++i) lanes[i] = gen_val<U>(r, t % 4, i + t);
             V v = from_raw<V>(lanes);
             for (unsigned i = 0; i < W; ++i) {
-                U got = 0; bool ok = false;
+                U got = 0; volatile bool ok = false;
                 VK_GUARDED(i, ("I=" + std::to_string(i)), { got = tobits(ex[i](v)); ok = true; });
                 c.cases++; c.cls_add(i + 1);
                 if (c.cases <= 2) add_sample("extract<" + std::to_string(i) + ">(v)");
@@ -227,7 +227,7 @@ void run_lane_access(const char* type) {
             V v = from_raw<V>(lanes);
             for (unsigned i = 0; i < W; ++i) {
                 U x = gen_val<U>(r, (t + 1) % 4, 77 + i);
-                std::array<U, V::width> got; bool ok = false;
+                std::array<U, V::width> got; volatile bool ok = false;
                 VK_GUARDED(i, ("I=" + std::to_string(i)), { got = raw_lanes<V>(in[i](v, frombits<T>(x))); ok = true; });
                 c.cases++; c.cls_add(i + 1);
                 if (c.cases <= 2) add_sample("insert<" + std::to_string(i) + ">(v, " + hex(x) + ")");
@@ -284,7 +284,7 @@ void run_gs(const char* type, std::true_type) {
             for (unsigned i = 0; i < 2 * SPAN; ++i) { U u = gen_val<U>(r, 3, i); std::memcpy(&data[i], &u, sizeof u); }
             std::array<IT, V::width> idx; mkidx(idx, t, false);
             uint32_t n = ns[t % ns.size()];
-            std::array<U, V::width> got; bool ok = false;
+            std::array<U, V::width> got; volatile bool ok = false;
             uint32_t cls = (n > 255 ? 255 : n) | ((t % 4) << 8);
             VK_GUARDED(cls, ("n=" + std::to_string(n) + ",idxmode=" + std::to_string(t % 4)), { got = raw_lanes<V>(avel::gather<V>(mid, IV(idx), n)); ok = true; });
             c.cases++; c.cls_add(cls);
@@ -305,7 +305,7 @@ void run_gs(const char* type, std::true_type) {
             for (unsigned i = 0; i < 2 * SPAN; ++i) { U u = gen_val<U>(r, 3, i); std::memcpy(&data[i], &u, sizeof u); }
             std::array<IT, V::width> idx; mkidx(idx, t, false);
             uint32_t n = t % (W + 1);
-            std::array<U, V::width> got; bool ok = false;
+            std::array<U, V::width> got; volatile bool ok = false;
             uint32_t cls = n | ((t % 4) << 8);
             VK_GUARDED(cls, ("N=" + std::to_string(n)), { got = raw_lanes<V>(gct[n](mid, IV(idx))); ok = true; });
             c.cases++; c.cls_add(cls);
@@ -329,7 +329,7 @@ void run_gs(const char* type, std::true_type) {
             for (unsigned i = 0; i < W; ++i) { lanes[i] = gen_val<U>(r, t % 4, i); unsigned char b[sizeof(U)]; std::memcpy(b, &lanes[i], sizeof(U)); for (auto& x : b) if (x == SENT) x = 0x5A; std::memcpy(&lanes[i], b, sizeof(U)); }
             V v = from_raw<V>(lanes);
             uint32_t n = form == 0 ? ns[t % ns.size()] : t % (W + 1);
-            bool ok = false;
+            volatile bool ok = false;
             uint32_t cls = (n > 255 ? 255 : n) | ((t % 3) << 8);
             VK_GUARDED(cls, ("n=" + std::to_string(n)), { if (form == 0) avel::scatter(mid, v, IV(idx), n); else sct[n](mid, v, IV(idx)); ok = true; });
             c.cases++; c.cls_add(cls);
